@@ -125,6 +125,40 @@ type dRow struct {
 	B bool  `parquet:"b"`
 }
 
+// bRow: 16-byte values that often share their first 8 bytes (the AVX-512
+// min/max kernels of big-endian 128-bit values compare the halves separately).
+type bRow struct {
+	U [16]byte  `parquet:"u,uuid"`
+	F [16]byte  `parquet:"f"`
+	O *[16]byte `parquet:"o"`
+}
+
+func genBRows(seed int64, n int) []bRow {
+	rng := rand.New(rand.NewSource(seed))
+	gen16 := func() (v [16]byte) {
+		for k := range v {
+			v[k] = byte(rng.Intn(2)) * 0xFF
+		}
+		if rng.Intn(3) != 0 {
+			copy(v[:8], []byte{255, 255, 255, 255, 255, 255, 255, 0})
+			if rng.Intn(2) == 0 {
+				v[8] = 0xFF
+			}
+		}
+		return v
+	}
+	rows := make([]bRow, n)
+	for i := range rows {
+		rows[i].U = gen16()
+		rows[i].F = gen16()
+		if rng.Intn(4) != 0 {
+			o := gen16()
+			rows[i].O = &o
+		}
+	}
+	return rows
+}
+
 func genTRows(seed int64, n int) []tRow {
 	rng := rand.New(rand.NewSource(seed))
 	f64 := []float64{0, math.Copysign(0, -1), math.NaN(), 1.5, -2.25, math.Inf(1), math.Float64frombits(0x7ff8000000000001), 1e-300}
@@ -520,6 +554,12 @@ func build(sp spec) (f *factory, ok bool) {
 		})
 		f.hist = []int{n}
 		return f, true
+	case "be128":
+		n := sp.Case.NRows
+		rows := genBRows(sp.Case.Seed, n+sp.Extra)
+		return typedFactory(sp, rows, n, "u", 0, func() []parquet.WriterOption {
+			return []parquet.WriterOption{parquet.DataPageVersion(1 + int(sp.Case.Seed&1)), parquet.PageBufferSize(1 << 12)}
+		}), true
 	case "encrypted":
 		n := sp.Case.NRows
 		rows := genTRows(sp.Case.Seed, n+sp.Extra)
@@ -1296,6 +1336,9 @@ func variantSpecs(c *core.Ctx) []spec {
 	for i := 0; i < 4; i++ {
 		out = append(out, spec{Family: "rle", Case: gen.Case{Seed: int64(i), NRows: []int{0, 3, 40, 400}[i]}})
 	}
+	for i := 0; i < c.N(8, 40); i++ {
+		out = append(out, spec{Family: "be128", Case: gen.Case{Seed: 300 + int64(i), NRows: []int{16, 17, 40, 100, 333}[i%5]}})
+	}
 	for i := 0; i < c.N(6, 40); i++ {
 		out = append(out, spec{Family: "typed", Case: gen.Case{Seed: 1000 + int64(i), NRows: []int{1, 9, 70, 333}[i%4]}})
 		out = append(out, spec{Family: "rle", Case: gen.Case{Seed: 77 + c.Seed*131 + int64(i), NRows: 20 + 30*i}})
@@ -1508,6 +1551,12 @@ func runC17(c *core.Ctx) {
 		// dictionary fallback in the previous life
 		{Spec: spec{Family: "typed", Case: gen.Case{Seed: 3, NRows: 200}, Extra: 300, DictMax: 24}, Mode: "reset", Lives: []life{{Kind: "abandon", Lo: 0, Hi: 300, Batch: 50}}},
 		{Spec: spec{Family: "rle", Case: gen.Case{Seed: 0, NRows: 0}, Extra: 64}, Mode: "reset", Lives: []life{{Kind: "closed", Lo: 0, Hi: 20}}},
+		// 2943698: rows left in the PLAIN fallback buffer of an abandoned file
+		{Spec: spec{Family: "gen", Case: gen.Case{Seed: 10031, NRows: 9, MaxDepth: 2, MaxFields: 5, Codecs: allCodecs, NullBias: 5}, DictMax: 106, KV: 2, Extra: 164}, Mode: "reset",
+			Lives: []life{{Kind: "abandon", Lo: 0, Hi: 100, Batch: 32}}},
+		// 6ab6c3a: bloom filter length of the previous life when the next chunk has no filter
+		{Spec: spec{Family: "gen", Case: gen.Case{Seed: 7965, NRows: 1, MaxDepth: 3, MaxFields: 1, Codecs: allCodecs, NullBias: 5}, Extra: 204}, Mode: "reset",
+			Lives: []life{{Kind: "closed", Lo: 82, Hi: 83, Batch: 32}}},
 		// key/value map order
 		{Spec: spec{Family: "typed", Case: gen.Case{Seed: 4, NRows: 2}, KV: 7}, Mode: "repeat", Count: 30},
 		// sorted buffer reset without a read
@@ -1553,7 +1602,7 @@ func runC17(c *core.Ctx) {
 	}
 	nTyped := c.N(120, 1000)
 	for i := 0; i < nTyped; i++ {
-		fam := []string{"typed", "typed", "rle", "sorting", "encrypted"}[i%5]
+		fam := []string{"typed", "typed", "rle", "sorting", "encrypted", "be128"}[i%6]
 		sp := spec{Family: fam, Case: gen.Case{Seed: c.Seed*104729 + int64(i), NRows: []int{0, 1, 8, 60, 250}[c.Rng.Intn(5)]}, Extra: 16 + c.Rng.Intn(300)}
 		if fam == "typed" && i%3 == 0 {
 			sp.API = "writer"
@@ -1620,7 +1669,7 @@ func runC17(c *core.Ctx) {
 		// the pinned resets must be told apart by the model (sanity of the oracle wiring)
 		cfg := "5:3:1:7:1/2/1/1.2;0/0/0/3"
 		for _, q := range [][4]string{{"current", "w0+c,k9=9,x14+4+2,c", "w0+7,c", "1"}, {"pinned-aliasing", "w0+c,c", "w0+7,c", "0"},
-			{"pinned-kv", "k9=9,w0+1,c", "w0+7,c", "0"}, {"pinned-ordinal", "w0+1,c", "w0+7,c", "0"}} {
+			{"pinned-kv", "k9=9,w0+1,c", "w0+7,c", "0"}, {"pinned-ordinal", "w0+1,c", "w0+7,c", "0"}, {"pinned-plain", "w0+4,w7+1,a", "w0+4,w8+1,c", "0"}, {"current", "w0+4,w7+1,a", "w0+4,w8+1,c", "1"}} {
 			if got := c.Ask(fmt.Sprintf("c17.equiv %s %s _ %s %s", q[0], cfg, q[1], q[2])); got != q[3] {
 				c.Mismatch("corr:C17.pinned-"+q[0], q[1]+" | "+q[2], q[3], got, nil)
 			}
